@@ -208,3 +208,6 @@ for _t in ("quick", "thorough"):
 # C08 also runs the collision family (the session's parameters come from the OPEN received on the surviving connection)
 SUITES["C08"]["quick"] += [dict(_CO)]
 SUITES["C08"]["thorough"] += [dict(_CO)]
+
+# development aid: every world mode at once, all classes reported
+PROP_INFO["X_WORLD"] = dict(X); SUITES["X_WORLD"] = {"quick": [{"family": "world", "mode": m, "share": 1} for m in ("", "nofault", "addpath", "select", "pack")], "thorough": [{"family": "world", "mode": m, "share": 1} for m in ("", "nofault", "addpath", "select")]}
